@@ -23,7 +23,13 @@ enum Pfx { Infl(String), Exact(String) }
 #[derive(Clone, Debug, PartialEq)]
 enum Obs { U(u64), F(u64) }
 #[derive(Clone, Debug, PartialEq)]
-enum VCall { None, Str(String), Metric(Obs, u32), Invalid }
+enum VCall { None, Str(String), Metric(Obs, u32, Vec<(String, String)>, bool), Invalid }
+/// WithDimensions<T, N> | ForceFlag<T, MyFlagCtor>
+#[derive(Clone, Debug, PartialEq)]
+enum Wrapper { Dims(Vec<(String, String)>), Forced }
+/// what a flattened field holds: Child | Some(child) | None::<Child> | a wrapper around the child
+#[derive(Clone, Debug, PartialEq)]
+enum OptMode { Plain, Some, None, Wrapped(Wrapper) }
 #[derive(Clone, Debug, PartialEq)]
 enum Leaf {
     /// ty: 0 u64, 1 u32, 2 u16, 3 u8, 4 usize, 5 bool, 6 f64, 7 f32, 8 Duration
@@ -33,12 +39,12 @@ enum Leaf {
     Enum { ra: u8, vs: Vec<(String, Option<String>)>, i: usize },
     Val { unit: Option<u32>, inner: Box<Leaf>, nign: u8, named: bool },
     Opt { present: bool, inner: Box<Leaf> },
+    Wrap { w: Wrapper, inner: Box<Leaf> },
 }
 #[derive(Clone, Debug, PartialEq)]
 enum Kind {
     Field { name: Option<String>, unit: Option<u32>, sg: bool, v: Leaf },
-    /// o: 0 plain, 1 Some(child), 2 None
-    Flatten { p: Option<Pfx>, o: u8, d: Box<Def> },
+    Flatten { p: Option<Pfx>, o: OptMode, d: Box<Def> },
     FlattenEntry { raw: Vec<(String, VCall)>, rawsg: Vec<(String, String)>, no_close: bool },
     Timestamp(u64),
     Ignore,
@@ -73,11 +79,20 @@ fn enc_pfx(p: &Option<Pfx>) -> Sx {
 fn enc_obs(o: &Obs) -> Vec<Sx> {
     match o { Obs::U(n) => vec![sx::n(0u8), sx::n(*n)], Obs::F(b) => vec![sx::n(1u8), sx::n(*b)] }
 }
+fn enc_pairs(d: &[(String, String)]) -> Sx {
+    Sx::L(d.iter().map(|(k, v)| Sx::L(vec![sx::b(k.as_bytes()), sx::b(v.as_bytes())])).collect())
+}
+fn enc_wrapper(w: &Wrapper) -> Sx {
+    match w { Wrapper::Dims(d) => sx::tag(0, vec![enc_pairs(d)]), Wrapper::Forced => sx::tag(1, vec![]) }
+}
+fn enc_optmode(o: &OptMode) -> Sx {
+    match o { OptMode::Plain => sx::n(0u8), OptMode::Some => sx::n(1u8), OptMode::None => sx::n(2u8), OptMode::Wrapped(w) => sx::tag(3, vec![enc_wrapper(w)]) }
+}
 fn enc_vcall(v: &VCall) -> Sx {
     match v {
         VCall::None => sx::tag(0, vec![]),
         VCall::Str(s) => sx::tag(1, vec![sx::b(s.as_bytes())]),
-        VCall::Metric(o, u) => { let mut a = enc_obs(o); a.push(sx::n(*u)); sx::tag(2, a) }
+        VCall::Metric(o, u, d, f) => { let mut a = enc_obs(o); a.push(sx::n(*u)); a.push(enc_pairs(d)); a.push(sx::boolean(*f)); sx::tag(2, a) }
         VCall::Invalid => sx::tag(3, vec![]),
     }
 }
@@ -92,6 +107,7 @@ fn enc_leaf(l: &Leaf) -> Sx {
         ]),
         Leaf::Val { unit, inner, nign, named } => sx::tag(3, vec![ounit(unit), enc_leaf(inner), sx::n(*nign), sx::boolean(*named)]),
         Leaf::Opt { present, inner } => sx::tag(4, vec![sx::boolean(*present), enc_leaf(inner)]),
+        Leaf::Wrap { w, inner } => sx::tag(5, vec![enc_wrapper(w), enc_leaf(inner)]),
     }
 }
 fn enc_fields(fs: &[Field]) -> Sx {
@@ -100,7 +116,7 @@ fn enc_fields(fs: &[Field]) -> Sx {
 fn enc_kind(k: &Kind) -> Sx {
     match k {
         Kind::Field { name, unit, sg, v } => sx::tag(0, vec![ostr(name), ounit(unit), sx::boolean(*sg), enc_leaf(v)]),
-        Kind::Flatten { p, o, d } => sx::tag(1, vec![enc_pfx(p), sx::n(*o), enc_def(d)]),
+        Kind::Flatten { p, o, d } => sx::tag(1, vec![enc_pfx(p), enc_optmode(o), enc_def(d)]),
         Kind::FlattenEntry { raw, rawsg, no_close } => sx::tag(2, vec![
             Sx::L(raw.iter().map(|(n, v)| Sx::L(vec![sx::b(n.as_bytes()), enc_vcall(v)])).collect()),
             Sx::L(rawsg.iter().map(|(n, g)| Sx::L(vec![sx::b(n.as_bytes()), sx::b(g.as_bytes())])).collect()),
@@ -145,11 +161,16 @@ fn dec_pfx(x: &Sx) -> Option<Pfx> {
     x.list().first().map(|p| if p.tag() == 0 { Pfx::Infl(s_of(p.arg(0))) } else { Pfx::Exact(s_of(p.arg(0))) })
 }
 fn dec_obs(k: &Sx, p: &Sx) -> Obs { if k.num() == 0 { Obs::U(p.num() as u64) } else { Obs::F(p.num() as u64) } }
+fn dec_pairs(x: &Sx) -> Vec<(String, String)> { x.list().iter().map(|y| (s_of(&y.list()[0]), s_of(&y.list()[1]))).collect() }
+fn dec_wrapper(x: &Sx) -> Wrapper { if x.tag() == 0 { Wrapper::Dims(dec_pairs(x.arg(0))) } else { Wrapper::Forced } }
+fn dec_optmode(x: &Sx) -> OptMode {
+    match x { Sx::A(_, 1) => OptMode::Some, Sx::A(_, 2) => OptMode::None, Sx::L(_) if x.tag() == 3 => OptMode::Wrapped(dec_wrapper(x.arg(0))), _ => OptMode::Plain }
+}
 fn dec_vcall(x: &Sx) -> VCall {
     match x.tag() {
         0 => VCall::None,
         1 => VCall::Str(s_of(x.arg(0))),
-        2 => VCall::Metric(dec_obs(x.arg(0), x.arg(1)), x.arg(2).num() as u32),
+        2 => VCall::Metric(dec_obs(x.arg(0), x.arg(1)), x.arg(2).num() as u32, dec_pairs(x.arg(3)), x.arg(4).num() != 0),
         _ => VCall::Invalid,
     }
 }
@@ -163,6 +184,7 @@ fn dec_leaf(x: &Sx) -> Leaf {
             i: x.arg(2).num() as usize,
         },
         3 => Leaf::Val { unit: dunit(x.arg(0)), inner: Box::new(dec_leaf(x.arg(1))), nign: x.arg(2).num() as u8, named: x.arg(3).num() != 0 },
+        5 => Leaf::Wrap { w: dec_wrapper(x.arg(0)), inner: Box::new(dec_leaf(x.arg(1))) },
         _ => Leaf::Opt { present: x.arg(0).num() != 0, inner: Box::new(dec_leaf(x.arg(1))) },
     }
 }
@@ -172,7 +194,7 @@ fn dec_fields(x: &Sx) -> Vec<Field> {
 fn dec_kind(x: &Sx) -> Kind {
     match x.tag() {
         0 => Kind::Field { name: dstr(x.arg(0)), unit: dunit(x.arg(1)), sg: x.arg(2).num() != 0, v: dec_leaf(x.arg(3)) },
-        1 => Kind::Flatten { p: dec_pfx(x.arg(0)), o: x.arg(1).num() as u8, d: Box::new(dec_def(x.arg(2))) },
+        1 => Kind::Flatten { p: dec_pfx(x.arg(0)), o: dec_optmode(x.arg(1)), d: Box::new(dec_def(x.arg(2))) },
         2 => Kind::FlattenEntry {
             raw: x.arg(0).list().iter().map(|y| (s_of(&y.list()[0]), dec_vcall(&y.list()[1]))).collect(),
             rawsg: x.arg(1).list().iter().map(|y| (s_of(&y.list()[0]), s_of(&y.list()[1]))).collect(),
@@ -281,6 +303,18 @@ impl Render {
                 let (ity, iex) = self.leaf(inner);
                 (format!("Option<{ity}>"), if *present { format!("Some({iex})") } else { "None".into() })
             }
+            Leaf::Wrap { w, inner } => { let (ity, iex) = self.leaf(inner); Self::wrap(w, ity, iex) }
+        }
+    }
+
+    fn wrap(w: &Wrapper, ty: String, ex: String) -> (String, String) {
+        match w {
+            Wrapper::Dims(ds) => {
+                let n = ds.len();
+                let pairs: Vec<String> = ds.iter().map(|(k, v)| format!("({}, {})", lit(k), lit(v))).collect();
+                (format!("WithDimensions<{ty}, {n}>"), format!("WithDimensions::<_, {n}>::new_with_dimensions({ex}, [{}])", pairs.join(", ")))
+            }
+            Wrapper::Forced => (format!("ForceFlag<{ty}, MyFlagCtor>"), format!("ForceFlag::<_, MyFlagCtor>::from({ex})")),
         }
     }
 
@@ -307,9 +341,10 @@ impl Render {
                 let mut a = vec!["flatten".to_string()];
                 if let Some(x) = Self::pfx_attr(p) { a.push(x); }
                 match o {
-                    0 => (a, ty, ex),
-                    1 => (a, format!("Option<{ty}>"), format!("Some({ex})")),
-                    _ => (a, format!("Option<{ty}>"), "None".into()),
+                    OptMode::Plain => (a, ty, ex),
+                    OptMode::Some => (a, format!("Option<{ty}>"), format!("Some({ex})")),
+                    OptMode::None => (a, format!("Option<{ty}>"), "None".into()),
+                    OptMode::Wrapped(w) => { let (t, e) = Self::wrap(w, ty, ex); (a, t, e) }
                 }
             }
             Kind::FlattenEntry { raw, rawsg, no_close } => {
@@ -318,8 +353,8 @@ impl Render {
                 let items: Vec<String> = raw.iter().map(|(n, v)| format!("({}, {})", lit(n), match v {
                     VCall::None => "RawVal::Absent".to_string(),
                     VCall::Str(s) => format!("RawVal::Str({})", lit(s)),
-                    VCall::Metric(Obs::U(n), u) => format!("RawVal::U({n}, {u})"),
-                    VCall::Metric(Obs::F(b), u) => format!("RawVal::F({b:#x}, {u})"),
+                    VCall::Metric(Obs::U(n), u, ..) => format!("RawVal::U({n}, {u})"),
+                    VCall::Metric(Obs::F(b), u, ..) => format!("RawVal::F({b:#x}, {u})"),
                     VCall::Invalid => "RawVal::Bad".to_string(),
                 })).collect();
                 let gs: Vec<String> = rawsg.iter().map(|(n, g)| format!("({}, {})", lit(n), lit(g))).collect();
@@ -441,6 +476,7 @@ use metrique::{CloseValue, RootEntry};
 use metrique::concat::{Concatenated, ConstStr, const_str_value};
 use metrique::unit::{Count, Percent, Second, Millisecond, Microsecond, Byte, Kilobyte, Megabyte, Bit, BytePerSecond, Kilobit, Gigabyte, TerabitPerSecond};
 use metrique::writer::{Entry, EntryWriter, EntryConfig, MetricFlags, Observation, Unit, ValidationError, Value, ValueWriter};
+use metrique::writer::value::{FlagConstructor, ForceFlag, MetricOptions, WithDimensions};
 use std::borrow::Cow;
 use std::fmt::Write as _;
 use std::time::{Duration, SystemTime, UNIX_EPOCH};
@@ -462,6 +498,15 @@ fn unit_of(code: u64) -> Unit {
     }
 }
 
+/// The option ForceFlag<_, MyFlagCtor> forces on every metric below it.
+#[derive(Debug)]
+struct MyFlagOpt;
+impl MetricOptions for MyFlagOpt {}
+struct MyFlagCtor;
+impl FlagConstructor for MyFlagCtor {
+    fn construct() -> MetricFlags<'static> { MetricFlags::upcast(&MyFlagOpt) }
+}
+
 /// Records what a Value does with its ValueWriter.
 struct VW<'s>(&'s mut String);
 impl<'s> ValueWriter for VW<'s> {
@@ -469,12 +514,15 @@ impl<'s> ValueWriter for VW<'s> {
     fn metric<'a>(self, distribution: impl IntoIterator<Item = Observation>, unit: Unit,
                   dimensions: impl IntoIterator<Item = (&'a str, &'a str)>, flags: MetricFlags<'_>) {
         let obs: Vec<Observation> = distribution.into_iter().collect();
-        let ndims = dimensions.into_iter().count();
-        let plain = format!("{:?}", flags) == format!("{:?}", MetricFlags::empty());
-        *self.0 = match (&obs[..], ndims, plain) {
-            ([Observation::Unsigned(n)], 0, true) => format!("(2 0 {:x} {:x})", n, unit_code(unit)),
-            ([Observation::Floating(f)], 0, true) => format!("(2 1 {:x} {:x})", f.to_bits(), unit_code(unit)),
-            _ => format!("(9 {:x} {:x})", obs.len(), ndims),
+        let dims: Vec<String> = dimensions.into_iter().map(|(k, v)| format!("({} {})", hex(k), hex(v))).collect();
+        let dims = dims.join(" ");
+        // the only option the generated programs ever set is MyFlagOpt; anything else is reported as (9 ..)
+        let forced = flags.downcast::<MyFlagOpt>().is_some();
+        let other = !forced && format!("{:?}", flags) != format!("{:?}", MetricFlags::empty());
+        *self.0 = match (&obs[..], other) {
+            ([Observation::Unsigned(n)], false) => format!("(2 0 {:x} {:x} ({dims}) {})", n, unit_code(unit), forced as u8),
+            ([Observation::Floating(f)], false) => format!("(2 1 {:x} {:x} ({dims}) {})", f.to_bits(), unit_code(unit), forced as u8),
+            _ => format!("(9 {:x})", obs.len()),
         };
     }
     fn error(self, _error: ValidationError) { *self.0 = "(3)".to_string(); }
@@ -768,7 +816,9 @@ impl Gen {
             5 => (Obs::U(self.rng.below(2)), 0),
             6 => (Obs::F(self.rng.pick(&[0.0f64, -0.0, 1.5, 1e300, -2.25, 0.1, f64::INFINITY, 5e-324]).to_bits()), 0),
             7 => (Obs::F((*self.rng.pick(&[0.0f32, 0.5, -3.0, 1.0e20, 0.1]) as f64).to_bits()), 0),
-            _ => (Obs::F((self.rng.below(1 << 40) as f64).to_bits()), 4),
+            // Duration writes as_secs_f64() * 1000.0: exact (and equal to the millisecond count) for multiples of 125 ms,
+            // so the case can carry the f64 the primitive will write; other durations are C19's business
+            _ => (Obs::F(((125 * self.rng.below(1 << 33)) as f64).to_bits()), 4),
         };
         Leaf::Num { o, u, ty }
     }
@@ -786,16 +836,30 @@ impl Gen {
     fn unit_for(&mut self, l: &Leaf) -> Option<u32> {
         match l {
             Leaf::Num { u, .. } => Some(if *u == 0 { self.rng.range(1, 13) as u32 } else { *u }),
-            Leaf::Opt { inner, .. } => self.unit_for(inner),
+            Leaf::Opt { inner, .. } | Leaf::Wrap { inner, .. } => self.unit_for(inner),
             _ => None,
         }
     }
-    /// (leaf, declared unit on the field). `by_ref`: the enclosing container closes its fields by reference.
-    fn leaf(&mut self, want_group: bool, by_ref: bool, depth: u32) -> (Leaf, Option<u32>) {
+    fn dims(&mut self) -> Vec<(String, String)> {
+        let n = self.rng.range(1, 2);
+        (0..n).map(|_| { let w: &str = *self.rng.pick(&WORDS); (cap(w), self.text()) }).collect()
+    }
+    /// a value wrapper allowed here: WithDimensions has no by-reference CloseValue impl; two ForceFlags cannot be
+    /// merged (MetricFlags::try_merge panics), so never one below another
+    fn wrapper(&mut self, by_ref: bool, forced: bool) -> Option<Wrapper> {
+        match (by_ref, forced, self.rng.chance(1, 2)) {
+            (false, _, true) | (false, true, _) => Some(Wrapper::Dims(self.dims())),
+            (_, false, _) => Some(Wrapper::Forced),
+            _ => None,
+        }
+    }
+    /// (leaf, declared unit on the field). `by_ref`: the enclosing container closes its fields by reference;
+    /// `forced`: a ForceFlag wrapper is already in force above.
+    fn leaf(&mut self, want_group: bool, by_ref: bool, depth: u32, forced: bool) -> (Leaf, Option<u32>) {
         if want_group {
             let l = match self.rng.below(4) {
                 0 => self.value_enum(),
-                1 if depth < 2 => { let (i, _) = self.leaf(true, true, depth + 1); Leaf::Val { unit: None, inner: Box::new(i), nign: self.rng.below(3) as u8, named: self.rng.chance(1, 2) } }
+                1 if depth < 2 => { let (i, _) = self.leaf(true, true, depth + 1, forced); Leaf::Val { unit: None, inner: Box::new(i), nign: self.rng.below(3) as u8, named: self.rng.chance(1, 2) } }
                 _ => Leaf::Str { s: self.text(), ty: 0 },
             };
             return (l, None);
@@ -804,13 +868,22 @@ impl Gen {
             0 | 1 => Leaf::Str { s: self.text(), ty: if by_ref { 0 } else { self.rng.below(2) as u8 } },
             2 => self.value_enum(),
             3 if depth < 2 => {
-                let (i, u) = self.leaf(false, true, depth + 1);
+                let (i, u) = self.leaf(false, true, depth + 1, forced);
                 Leaf::Val { unit: u, inner: Box::new(i), nign: self.rng.below(3) as u8, named: self.rng.chance(1, 2) }
             }
             4 | 5 if depth < 2 => {
-                let (i, u) = self.leaf(false, by_ref, depth + 1);
+                let (i, u) = self.leaf(false, by_ref, depth + 1, forced);
                 // the unit goes on the enclosing field
                 return (Leaf::Opt { present: self.rng.chance(1, 2), inner: Box::new(i) }, u);
+            }
+            6 if depth < 2 => {
+                if let Some(w) = self.wrapper(by_ref, forced) {
+                    let inner = if self.rng.chance(1, 5) { Leaf::Str { s: self.text(), ty: 0 } } else { self.num_leaf() };
+                    let l = Leaf::Wrap { w, inner: Box::new(inner) };
+                    let unit = if self.rng.chance(2, 5) { self.unit_for(&l) } else { None };
+                    return (l, unit);
+                }
+                self.num_leaf()
             }
             _ => self.num_leaf(),
         };
@@ -825,8 +898,8 @@ impl Gen {
             let v = match self.rng.below(4) {
                 0 => VCall::None,
                 1 => VCall::Str(self.text()),
-                2 => VCall::Metric(Obs::F(2.5f64.to_bits()), self.rng.below(14) as u32),
-                _ => VCall::Metric(Obs::U(self.rng.below(1000)), self.rng.below(14) as u32),
+                2 => VCall::Metric(Obs::F(2.5f64.to_bits()), self.rng.below(14) as u32, vec![], false),
+                _ => VCall::Metric(Obs::U(self.rng.below(1000)), self.rng.below(14) as u32, vec![], false),
             };
             (name, v)
         }).collect();
@@ -837,7 +910,7 @@ impl Gen {
 
     /// the fields of a struct or of one struct/tuple variant. `bases`: ident stems already used by statement-level
     /// ConstStr items of the same body (two equal stems do not compile).
-    fn fields(&mut self, depth: u32, maxdepth: u32, named: bool, in_variant: bool, by_ref: bool, bases: &mut HashSet<String>) -> Vec<Field> {
+    fn fields(&mut self, depth: u32, maxdepth: u32, named: bool, in_variant: bool, by_ref: bool, forced: bool, bases: &mut HashSet<String>) -> Vec<Field> {
         let n = if named { self.rng.range(1, 5) } else { self.rng.range(1, 3) };
         let mut taken = HashSet::new();
         let mut fs = vec![];
@@ -848,7 +921,14 @@ impl Gen {
             let r = self.rng.below(100);
             let k = if want_flatten {
                 let child_by_ref = if by_ref { true } else { self.rng.chance(1, 2) };
-                let d = self.def(depth + 1, maxdepth, if child_by_ref { 1 } else { 2 });
+                let o = match self.rng.below(8) {
+                    0 | 1 | 2 => OptMode::Plain,
+                    3 | 4 => OptMode::Some,
+                    5 => OptMode::None,
+                    _ => self.wrapper(by_ref, forced).map(OptMode::Wrapped).unwrap_or(OptMode::Plain),
+                };
+                let child_forced = forced || o == OptMode::Wrapped(Wrapper::Forced);
+                let d = self.def(depth + 1, maxdepth, if child_by_ref { 1 } else { 2 }, child_forced);
                 let p = if self.long || self.rng.chance(3, 5) {
                     let mut p;
                     loop {
@@ -858,7 +938,7 @@ impl Gen {
                     }
                     Some(p)
                 } else { None };
-                Kind::Flatten { p, o: *self.rng.pick(&[0, 0, 0, 1, 1, 2]), d: Box::new(d) }
+                Kind::Flatten { p, o, d: Box::new(d) }
             } else if r < 8 {
                 self.raw_entry(by_ref)
             } else if (r < 16 && !(named && in_variant)) || (!named) {
@@ -869,7 +949,7 @@ impl Gen {
                 Kind::Timestamp(self.rng.below(1 << 41))
             } else {
                 let sg = self.rng.chance(1, 6);
-                let (v, unit) = self.leaf(sg, by_ref, 0);
+                let (v, unit) = self.leaf(sg, by_ref, 0, forced);
                 let name = if self.rng.chance(1, 5) { Some(self.name_override()) } else { None };
                 Kind::Field { name, unit, sg, v }
             };
@@ -880,13 +960,13 @@ impl Gen {
 
     fn container_prefix(&mut self) -> Option<Pfx> { if self.rng.chance(1, 3) { Some(self.prefix(true)) } else { None } }
 
-    fn def(&mut self, depth: u32, maxdepth: u32, mode: u8) -> Def {
+    fn def(&mut self, depth: u32, maxdepth: u32, mode: u8, forced: bool) -> Def {
         let ra = self.style(if depth == 0 { 25 } else { 55 });
         let pfx = self.container_prefix();
         let by_ref = mode == 1;
         if self.rng.chance(7, 10) {
             let mut bases = HashSet::new();
-            Def::Struct { ra, pfx, fs: self.fields(depth, maxdepth, true, false, by_ref, &mut bases), mode }
+            Def::Struct { ra, pfx, fs: self.fields(depth, maxdepth, true, false, by_ref, forced, &mut bases), mode }
         } else {
             // one stem namespace for the whole enum (conservative: arms are separate bodies), tag included
             let mut bases = HashSet::new();
@@ -913,8 +993,8 @@ impl Gen {
                 let name = if self.rng.chance(1, 4) { Some(self.name_override()) } else { None };
                 let d = match self.rng.below(5) {
                     0 => VData::Unit,
-                    1 | 2 => VData::Tuple(self.fields(depth, maxdepth, false, true, by_ref, &mut bases)),
-                    _ => VData::Struct(self.fields(depth, maxdepth, true, true, by_ref, &mut bases)),
+                    1 | 2 => VData::Tuple(self.fields(depth, maxdepth, false, true, by_ref, forced, &mut bases)),
+                    _ => VData::Struct(self.fields(depth, maxdepth, true, true, by_ref, forced, &mut bases)),
                 };
                 Variant { ident, name, d }
             }).collect();
@@ -951,7 +1031,7 @@ fn grid() -> Vec<Def> {
         ] };
         out.push(Def::Struct { ra: pra, pfx: None, mode: 0, fs: vec![
             Field { ident: "own_field".into(), k: Kind::Field { name: None, unit: None, sg: false, v: Leaf::Num { o: Obs::U(1), u: 0, ty: 5 } } },
-            Field { ident: "child".into(), k: Kind::Flatten { p: fp.clone(), o: 0, d: Box::new(child) } },
+            Field { ident: "child".into(), k: Kind::Flatten { p: fp.clone(), o: OptMode::Plain, d: Box::new(child) } },
         ] });
     } } } }
     for ra in 0..4u8 { for cp in &cpfx { for exact in [false, true] { for name in ["operation", "MyOp", "a_b"] { for outer in 0..2u8 {
@@ -965,7 +1045,7 @@ fn grid() -> Vec<Def> {
         if outer == 0 { out.push(e); } else {
             // the same enum flattened under a kebab-case parent with a flatten prefix
             out.push(Def::Struct { ra: 3, pfx: None, mode: 0, fs: vec![
-                Field { ident: "inner".into(), k: Kind::Flatten { p: Some(Pfx::Infl("up".into())), o: 1, d: Box::new(e) } }] });
+                Field { ident: "inner".into(), k: Kind::Flatten { p: Some(Pfx::Infl("up".into())), o: OptMode::Some, d: Box::new(e) } }] });
         }
     } } } } }
     // names around the 100-byte const-string limit: total length 96..=105, two- and three-level prefix chains
@@ -976,12 +1056,12 @@ fn grid() -> Vec<Def> {
         let rest = total - leaf_len;
         let d = if three {
             let mid = Def::Struct { ra: 0, pfx: None, mode: 1, fs: vec![
-                Field { ident: "m".into(), k: Kind::Flatten { p: Some(Pfx::Exact("q".repeat(40))), o: 0, d: Box::new(inner) } }] };
+                Field { ident: "m".into(), k: Kind::Flatten { p: Some(Pfx::Exact("q".repeat(40))), o: OptMode::Plain, d: Box::new(inner) } }] };
             Def::Struct { ra, pfx: None, mode: 0, fs: vec![
-                Field { ident: "t".into(), k: Kind::Flatten { p: Some(Pfx::Infl(format!("{}_", "p".repeat(rest - 41)))), o: 1, d: Box::new(mid) } }] }
+                Field { ident: "t".into(), k: Kind::Flatten { p: Some(Pfx::Infl(format!("{}_", "p".repeat(rest - 41)))), o: OptMode::Some, d: Box::new(mid) } }] }
         } else {
             Def::Struct { ra, pfx: None, mode: 0, fs: vec![
-                Field { ident: "t".into(), k: Kind::Flatten { p: Some(Pfx::Exact("P".repeat(rest))), o: 0, d: Box::new(inner) } }] }
+                Field { ident: "t".into(), k: Kind::Flatten { p: Some(Pfx::Exact("P".repeat(rest))), o: OptMode::Plain, d: Box::new(inner) } }] }
         };
         out.push(d);
     } } }
@@ -1008,11 +1088,11 @@ fn count_tree(d: &Def, depth: u32, out: &mut Out) {
                 if name.is_some() { out.count("field_name_override"); }
                 if unit.is_some() { out.count("field_unit"); }
                 if *sg { out.count("field_sample_group"); }
-                out.count(match v { Leaf::Num { .. } => "leaf_num", Leaf::Str { .. } => "leaf_str", Leaf::Enum { .. } => "leaf_value_enum", Leaf::Val { .. } => "leaf_value_struct", Leaf::Opt { present: true, .. } => "leaf_option_some", Leaf::Opt { .. } => "leaf_option_none" });
+                out.count(match v { Leaf::Num { .. } => "leaf_num", Leaf::Str { .. } => "leaf_str", Leaf::Enum { .. } => "leaf_value_enum", Leaf::Val { .. } => "leaf_value_struct", Leaf::Opt { present: true, .. } => "leaf_option_some", Leaf::Opt { .. } => "leaf_option_none", Leaf::Wrap { .. } => "leaf_with_dimensions_or_force_flag" });
             }
             Kind::Flatten { p, o, d } => {
                 out.count(match p { None => "flatten", Some(Pfx::Infl(_)) => "flatten_prefix", Some(Pfx::Exact(_)) => "flatten_exact_prefix" });
-                out.count(["flatten_plain", "flatten_option_some", "flatten_option_none"][*o as usize]);
+                out.count(match o { OptMode::Plain => "flatten_plain", OptMode::Some => "flatten_option_some", OptMode::None => "flatten_option_none", OptMode::Wrapped(Wrapper::Dims(_)) => "flatten_with_dimensions", OptMode::Wrapped(Wrapper::Forced) => "flatten_force_flag" });
                 count_tree(d, depth + 1, out);
             }
             Kind::FlattenEntry { .. } => out.count("flatten_entry"),
@@ -1110,7 +1190,7 @@ pub fn run(ctx: &Ctx) {
             let maxdepth = if ctx.tier_thorough { g.rng.range(1, 5) } else { g.rng.range(1, 3) } as u32;
             out_t.count(if g.long { "random_tree_long_prefixes" } else { "random_tree" });
             let mode = *g.rng.pick(&[0u8, 0, 1, 2]);
-            trees.push(Case::Tree(g.def(0, maxdepth, mode)));
+            trees.push(Case::Tree(g.def(0, maxdepth, mode, false)));
         }
         nbins = 16;
     }
